@@ -465,6 +465,16 @@ func (s *SMSValidator) validateCode(w http.ResponseWriter, r *http.Request, user
 
 		logger.Infof("user %s disabled sms 2fa", user.GetPID())
 	case PageSMSValidate:
+		// The first step of the login may have happened a while ago, give the
+		// modules that can veto a login (lock, confirm) another chance to do so.
+		r = r.WithContext(context.WithValue(r.Context(), authboss.CTXKeyUser, user))
+		handled, err := s.Authboss.Events.FireBefore(authboss.EventAuth, w, r)
+		if err != nil {
+			return err
+		} else if handled {
+			return nil
+		}
+
 		authboss.PutSession(w, authboss.SessionKey, user.GetPID())
 		authboss.PutSession(w, authboss.Session2FA, "sms")
 
@@ -474,8 +484,7 @@ func (s *SMSValidator) validateCode(w http.ResponseWriter, r *http.Request, user
 
 		logger.Infof("user %s sms 2fa success", user.GetPID())
 
-		r = r.WithContext(context.WithValue(r.Context(), authboss.CTXKeyUser, user))
-		handled, err := s.Authboss.Events.FireAfter(authboss.EventAuth, w, r)
+		handled, err = s.Authboss.Events.FireAfter(authboss.EventAuth, w, r)
 		if err != nil {
 			return err
 		} else if handled {
